@@ -15,7 +15,8 @@ Reading of the statement.
   `1 … N`), `N ≥ 1`.  Nothing is assumed about the *text*: that a rendered file has these observations is
   checked by the driver on the real bytes of every generated file (`checkOscar` / `checkJetscape` run on
   `analyse` of each line); `checkOscar_sound` / `checkJetscape_sound` show that a passed check gives exactly
-  the hypothesis used here.
+  the hypothesis used here.  For the text rendered by the file grammar of `Core/Render.lean` the hypothesis is PROVED
+  (`Props/C02/Text.lean`: `WFOscar_text`, `WFJetscape_text`, and the `…_text` corollaries of the theorems below).
 * "valid selector": `sel.validFor N` — `events=k` with `0 ≤ k < N`, `events=(a,b)` with `0 ≤ a ≤ b < N`
   (first / last / middle / `a = b` are instances).  `sel.start`, `sel.count N` are the window.
 * "observably identical to loading everything and keeping …": `select_eq_slice_*` — the *whole* returned
